@@ -5,7 +5,7 @@ set -u
 WT="$1"; ID="$2"
 HERE="$(cd "$(dirname "$0")/.." && pwd)"
 cd "$WT" || exit 2
-git stash -q -- yarl/ 2>/dev/null; git checkout -q -- yarl/ 2>/dev/null
+git checkout -q -- yarl/ 2>/dev/null
 git apply --check patch.diff || { echo "$ID: patch does not apply to clean tree"; exit 3; }
 sh "$HERE/selftest/build_ext.sh" "$WT" >/dev/null 2>&1
 /venv/bin/python demo.py >/tmp/demo_clean_$ID.out 2>&1; CLEAN=$?
@@ -14,6 +14,6 @@ sh "$HERE/selftest/build_ext.sh" "$WT" >/dev/null 2>&1
 /venv/bin/python demo.py >/tmp/demo_mut_$ID.out 2>&1; MUT=$?
 TESTS="$(/venv/bin/python -m pytest -q -p no:cacheprovider --timeout=900 2>&1 | tail -1)"
 echo "$ID: demo clean exit=$CLEAN, demo with change exit=$MUT, tests: $TESTS"
-git stash drop -q 2>/dev/null
+
 mkdir -p "$HERE/seeded/$ID"
 cp patch.diff demo.py meta.json "$HERE/seeded/$ID/"
